@@ -53,6 +53,15 @@ def nameClash (fs : Files) (r : Req) : Bool :=
       | _ => false)
   | _ => false
 
+/-- the file base already has a metadata file whose names do not include the given name (the new version would be filed
+under those names) -/
+def baseClash (fs : Files) (r : Req) : Bool :=
+  match dirOf fs (r.fileBase ++ ".metadata.json") with
+  | some (.obj md) => (match Dict.get? md "names" with
+      | some (.arr ns) => !(ns.any fun n => match n with | .str x => transformName x == transformName r.name | _ => false)
+      | _ => false)
+  | _ => false
+
 /-- everything `add_from_components` does before it writes its first file; the directory is only read -/
 def precheck (fs : Files) (r : Req) : Except PyErr Plan :=
   if r.comps.isEmpty then .error .runtime else
@@ -76,6 +85,7 @@ def precheck (fs : Files) (r : Req) : Except PyErr Plan :=
     if valid.isEmpty then .error .value else
     -- the name must not belong to another file base
     if nameClash fs r then .error .runtime else
+    if baseClash fs r then .error .runtime else
     if exists_ fs elemRel then .error .runtime else
     if exists_ fs tableRel then .error .runtime else
     .ok { elemRel, elemData, tableRel, tableData, metaRel, metaData }
